@@ -3,6 +3,8 @@ import Mathlib.Algebra.Order.Group.Int
 import TapkeeVerif.Proofs.KnnBrute
 import TapkeeVerif.Proofs.KnnVpBuild
 import TapkeeVerif.Proofs.KnnCover
+import TapkeeVerif.Proofs.CoverPrune
+import TapkeeVerif.Proofs.CoverRefute
 /-!
 # Property C02 — all three neighbour searches return exactly the k nearest other samples
 
@@ -124,6 +126,95 @@ theorem three_methods_agree {cb : Cb α K} {pop : List (α × K) → List (α ×
   exact ⟨h1.trans h2.symm, h3.trans h2.symm⟩
 
 end
+
+
+/-! ### cover tree batch query: justified upper bounds and sound pruning (partial `cover_query_exact`)
+
+Full statement aimed at (`cover_query_exact`): on a well-formed tree (`CoverTree.wfTree`) the candidate set
+returned for every query sample contains every sample that is `Near` it (`CoverTree.Near`: no `K0 = k+1` distinct
+samples are all strictly closer), hence satisfies the wrapper's needs.  **Proved part** (below): the
+`upper_bound` array is justified at every step (`≥ K0` distinct samples within `upper_bound[0]`), and *every*
+pruning decision of `descend`, `copy_zero_set`, `copy_cover_sets` and the final filter of `brute_nearest` is
+sound — nothing near a query sample is ever discarded.  **Not proved**: the bookkeeping that every non-discarded
+node is eventually descended and the assembly of the per-leaf results; that part is covered on every run by
+running this model on the real (certificate-checked) tree and comparing its candidate sets with the real query's,
+and by the `CandsOk` certificate.  The copy-step lemmas hold for the bound with `query_chi->max_dist` counted
+twice (repair F-COVER-COPY); for the bound with one `max_dist` the statement is refuted below. -/
+
+namespace CoverQuery
+open TapkeeVerif.CoverTree
+
+section
+variable {K : Type} [LinearOrder K] [AddCommGroup K] [IsOrderedAddMonoid K]
+variable {δ : Nat → Nat → K} {pts : List Nat} {K0 : Nat}
+
+/-- whenever `upper_bound[0]` is finite, at least `K0` distinct samples lie within it of the query point -/
+theorem cover_upper_bound_justified {x : Nat} {ub : List K} {Off : List Nat} (h : UBOk δ pts K0 x ub Off) {u : K}
+    (hu : ub0 K0 ub = some u) :
+    ∃ Y : List Nat, Y.Nodup ∧ (∀ y ∈ Y, y ∈ pts) ∧ K0 ≤ Y.length ∧ ∀ y ∈ Y, δ x y ≤ u :=
+  h.count hu
+
+/-- the array stays justified under `update` with the distance of a not yet offered sample, under the refill for
+    a query child (`setter(.., upper_bound[0] + parent_dist)`), and initially -/
+theorem cover_upper_bound_preserved (hm : IsMetric δ) (hK : 1 ≤ K0) {x y c : Nat} {ub : List K} {Off : List Nat}
+    (h : UBOk δ pts K0 x ub Off) (hy : y ∈ pts) (hyO : y ∉ Off) (hx : x ∈ pts) :
+    UBOk δ pts K0 x (offer K0 ub (δ x y)) (y :: Off) ∧
+      UBOk δ pts K0 c (fill K0 (addInf (ub0 K0 ub) (δ x c))) [] ∧
+      UBOk δ pts K0 x (update K0 [] (δ x x)) [x] :=
+  ⟨h.offer hK hy hyO, h.fill hm, UBOk.init hK hx⟩
+
+/-- **`descend`**: a parent skipped as a whole, a child rejected by `shell` or by `d <= upper_chi`, a leaf not
+    put into the zero set — nothing below them is near any query sample below the query node -/
+theorem cover_descend_prune_sound (hm : IsMetric δ) {Q : CNode K} {L : List Nat} {ub : List K} {Off : List Nat}
+    (hub : UBOk δ pts K0 Q.p ub Off) (hσ : ∀ q' ∈ L, δ Q.p q' ≤ Q.maxDist)
+    {par : Nat} {n : CNode K} (hρ : ∀ c ∈ n.leaves, δ n.p c ≤ n.maxDist) :
+    (leInf (δ Q.p n.p) (addInf (addInf (addInf (ub0 K0 ub) Q.maxDist) Q.maxDist) n.maxDist) = false →
+        ∀ q' ∈ L, ∀ c ∈ n.leaves, ¬ Near δ pts K0 q' c) ∧
+      (shell (δ Q.p par) (δ par n.p) (addInf (addInf (addInf (ub0 K0 ub) n.maxDist) Q.maxDist) Q.maxDist) = false →
+        ∀ q' ∈ L, ∀ c ∈ n.leaves, ¬ Near δ pts K0 q' c) ∧
+      (leInf (δ Q.p n.p) (addInf (addInf (addInf (ub0 K0 ub) n.maxDist) Q.maxDist) Q.maxDist) = false →
+        ∀ q' ∈ L, ∀ c ∈ n.leaves, ¬ Near δ pts K0 q' c) ∧
+      (leInf (δ Q.p n.p) (addInf (addInf (ub0 K0 ub) Q.maxDist) Q.maxDist) = false →
+        ∀ q' ∈ L, ¬ Near δ pts K0 q' n.p) :=
+  ⟨descend_parent_prune_sound hm hub hσ hρ, descend_child_shell_sound hm hub hσ hρ,
+    descend_child_dist_sound hm hub hσ hρ, descend_leaf_sound hm hub hσ⟩
+
+/-- **`copy_cover_sets` / `copy_zero_set`** with the repaired bound (`max_dist` of the query child twice) -/
+theorem cover_copy_prune_sound (hm : IsMetric δ) {C : CNode K} {L : List Nat} {ub : List K} {Off : List Nat}
+    (hub : UBOk δ pts K0 C.p ub Off) (hσ : ∀ q' ∈ L, δ C.p q' ≤ C.maxDist)
+    {x : Nat} {n : CNode K} (hρ : ∀ c ∈ n.leaves, δ n.p c ≤ n.maxDist) :
+    (shell (δ x n.p) (δ x C.p) (addInf (addInf (addInf (ub0 K0 ub) C.maxDist) C.maxDist) n.maxDist) = false →
+        ∀ q' ∈ L, ∀ c ∈ n.leaves, ¬ Near δ pts K0 q' c) ∧
+      (leInf (δ C.p n.p) (addInf (addInf (addInf (ub0 K0 ub) C.maxDist) C.maxDist) n.maxDist) = false →
+        ∀ q' ∈ L, ∀ c ∈ n.leaves, ¬ Near δ pts K0 q' c) ∧
+      (shell (δ x n.p) (δ x C.p) (addInf (addInf (ub0 K0 ub) C.maxDist) C.maxDist) = false ∨
+        leInf (δ C.p n.p) (addInf (addInf (ub0 K0 ub) C.maxDist) C.maxDist) = false →
+        ∀ q' ∈ L, ¬ Near δ pts K0 q' n.p) :=
+  ⟨copy_cover_shell_sound hm hub hσ hρ, copy_cover_dist_sound hm hub hσ hρ, copy_zero_sound hm hub hσ⟩
+
+/-- **final filter of `brute_nearest`**: exactly the near samples of the zero set survive being compared with
+    `upper_bound[0]` — a dropped one is not near, a near one is not dropped -/
+theorem cover_filter_sound (hm : IsMetric δ) {q r : Nat} {ub : List K} {Off : List Nat}
+    (hub : UBOk δ pts K0 q ub Off) :
+    (leInf (δ q r) (ub0 K0 ub) = false → ¬ Near δ pts K0 q r) ∧
+      (Near δ pts K0 q r → leInf (δ q r) (ub0 K0 ub) = true) :=
+  ⟨brute_filter_sound hm hub, near_within_ub hub⟩
+
+end
+
+/-- **F-COVER-COPY, Lean-checked**: with `query_chi->max_dist` counted once (the code before the repair) the
+    copy-step pruning statement is false — witness: 7 samples in 3-D under L∞ found on the real code
+    (`corpus/C02/f-cover-copy.case`), where the reference node holding the second nearest neighbour of a query
+    sample is discarded. -/
+theorem cover_copy_bound_refuted :
+    ¬ (∀ (δ : Nat → Nat → Int) (pts : List Nat) (K0 : Nat) (C n : CNode Int) (L : List Nat) (ub : List Int)
+        (Off : List Nat), IsMetric δ → UBOk δ pts K0 C.p ub Off → (∀ q' ∈ L, δ C.p q' ≤ C.maxDist) →
+        (∀ c ∈ n.leaves, δ n.p c ≤ n.maxDist) →
+        leInf (δ C.p n.p) (addInf (addInf (ub0 K0 ub) C.maxDist) n.maxDist) = false →
+        ∀ q' ∈ L, ∀ c ∈ n.leaves, ¬ Near δ pts K0 q' c) :=
+  copy_one_maxDist_refuted
+
+end CoverQuery
 
 /-! ### non-vacuity: the hypotheses are met by a concrete instance (points on the integer line) -/
 
